@@ -346,6 +346,10 @@ Loop:
 				case ActionSkip:
 					if !isLeaving {
 						_, path = pop(path)
+						if sstack == nil {
+							// the root itself was skipped: nothing left to visit
+							break Loop
+						}
 						continue
 					}
 				case ActionUpdate:
